@@ -722,7 +722,9 @@ def _case_prl(case, ctx):
     pos = 0
     for s in range(nst):
         ln = 100 + 17 * s
-        imgs = [(g, "Compressed" if (k + s) % 2 else "Plain", f"d.hdd.{s}.{g}.hds" if k % 2 else f"sub dir/ünï {s}.hds")
+        # file names: composed and decomposed accents, singleton code points (ANGSTROM SIGN, OHM SIGN), conjoining jamo
+        odd = ["sub dir/ünï %d.hds", "nfd-e\u0301-%d.hds", "\u212b\u2126-%d.hds", "\u1112\u1161\u11ab-%d.hds"][(s + nsh) % 4] % s
+        imgs = [(g, "Compressed" if (k + s) % 2 else "Plain", f"d.hdd.{s}.{g}.hds" if k % 2 else odd)
                 for k, g in enumerate(guids)]
         storages.append((pos, pos + ln, imgs))
         pos += ln
@@ -753,4 +755,34 @@ def _case_prl(case, ctx):
         _cmp(ctx, d, "snapshots.top_guid", desc.snapshots.top_guid, exp_top)
         chain = desc.get_snapshot_chain(uuid.UUID(guids[-1]))
         _cmp(ctx, d, "get_snapshot_chain(top)", [str(g) for g in chain], [g.strip("{}") for g in guids[::-1]])
+        # opening streams is an observation: what the descriptor exposes afterwards is what the file stores, in file order
+        def exposed(dsc):
+            return ([(x.start, x.end, [(str(im.guid), im.type, im.file) for im in x.images]) for x in dsc.storage_data.storages],
+                    [(str(x.guid), str(x.parent)) for x in dsc.snapshots.shots])
+
+        h = HDD(Path(hd))
+        before = exposed(h.descriptor)
+        for s_, (a, b, ims) in enumerate(storages):
+            for g, t, fn in ims:
+                pth = os.path.join(hd, fn)
+                os.makedirs(os.path.dirname(pth), exist_ok=True)
+                if t == "Plain":
+                    with open(pth, "wb") as f:
+                        f.write(b"\x00" * ((b - a) * 512))
+                else:
+                    B.build_hds([HOLE] * ((b - a + 7) // 8), [None] * ((b - a + 7) // 8), 8, 2, b - a).write_to(pth)
+        for attempt in (None, guids[0]):
+            try:
+                stream = h.open(attempt)
+                stream.read(512)
+                for _, x in stream.streams:
+                    while x is not None:
+                        try:
+                            getattr(x, "fh", x).close()
+                        except Exception:
+                            pass
+                        x = getattr(x, "parent", None)
+            except Exception as e:
+                _cmp(ctx, d, f"open({attempt}) of a well-formed bundle", repr(e)[:120], None)
+            _cmp(ctx, d, f"exposed descriptor after open({attempt})", exposed(h.descriptor), before)
     return d
